@@ -130,7 +130,7 @@ var hashers = map[int]*merkle.Hasher{}
 type treeCase struct {
 	Hash   int   `json:"hash"` // index into hashes
 	Leaves []h.B `json:"leaves"`
-	Fail   []int `json:"fail,omitempty"` // indices of leaves whose MarshalBinary fails
+	Fail   []int `json:"fail,omitempty"`  // indices of leaves whose MarshalBinary fails
 	Probe  []int `json:"probe,omitempty"` // leaf indices for inclusion proofs
 }
 
